@@ -68,6 +68,12 @@ Definition gm_augment_old (q : mx) (g : gm) : bool * gm :=
     let c3 := place_noise S (components S g) dim_old dn' dcov' q c2 in
     (true, mkGm S (components S g) (use_quat S g) (dcc S g) dim' (dl S g) (dc S g) dn' dcov' m2 c3 (weight_ S g)).
 
+(* seeded C11-r5 (not a repair of /repo: a recorded breaking change): a hand-written move assignment
+   that takes every descriptor and the storage of the source but forgets dim_noise *)
+Definition gm_move_assign_without_dn (tgt src : gm) : gm :=
+  mkGm S (components S src) (use_quat S src) (dcc S src) (dim S src) (dl S src) (dc S src) (dn S tgt) (dcov S src)
+       (mean_ S src) (cov_ S src) (weight_ S src).
+
 (* 28573a1^: augmentWithNoise was not virtual; a ParticleSet kept its state_ *)
 Definition ps_augment_old (q : mx) (p : pset) : bool * pset :=
   let r := gm_augment S q (base S p) in (fst r, mkPs S (snd r) (state_ S p)).
@@ -139,4 +145,17 @@ Lemma ps_augment_old_refuted :
 Proof.
   exists (ps_ctor ZOps 2 2 0 false), q11. split; [apply ps_ctor_consistent|]. split; [reflexivity|].
   split; refute_ps.
+Qed.
+
+(* g augmented, then g = GaussianMixture(3, 2, 1, true): the target keeps its own dim_noise = 1 with the
+   un-augmented storage of the temporary; and h = augmented(belief): dim_noise = 0 with augmented storage *)
+Lemma gm_move_assign_without_dn_refuted :
+  exists tgt src : C11_Model.gm ZOps,
+    Consistent ZOps tgt /\ Consistent ZOps src
+    /\ ~ Consistent ZOps (gm_move_assign_without_dn ZOps tgt src)
+    /\ ~ Consistent ZOps (gm_move_assign_without_dn ZOps src tgt).
+Proof.
+  exists (snd (gm_augment ZOps q11 (gm_ctor ZOps 2 1 1 false))), (gm_ctor ZOps 3 2 1 true).
+  split; [apply gm_augment_consistent; apply gm_ctor_consistent|]. split; [apply gm_ctor_consistent|].
+  split; refute_gm.
 Qed.
